@@ -57,13 +57,21 @@ def build_stream(r, max_input, reverse=False):
             # one long line (no literal): under the limit it is a command like any other
             verb = b'SEARCH SUBJECT "' + b"x" * r.choice((60000, 65500, 65536, 70000, 131072, 200000)) + b'"'
         nlit = r.choice((0, 0, 0, 1, 1, 2, 3))
+        long_tail = False
+        if not reverse and r.random() < 0.05:
+            # a line longer than the limit that ends in a literal header
+            verb = b'SEARCH SUBJECT "' + b"y" * (max_input + r.choice((10, 5000, 200000))) + b'"'
+            nlit = 1
+            long_tail = True
         # a command that exceeds the total size limit (crossed at one of its literals): sent with
         # non-synchronising literals only, so that the client has nothing to wait for once it is refused
-        big_cmd = (not reverse) and r.random() < 0.1
+        big_cmd = (not reverse) and r.random() < 0.1 and not long_tail
         if big_cmd:
             nlit = r.randint(1, 3)
             big_at = r.randrange(nlit)
         pieces = [tag + b" " + verb]
+        if long_tail:
+            pass
         lits = []
         total = len(pieces[0])
         over = None
@@ -88,7 +96,15 @@ def build_stream(r, max_input, reverse=False):
             # once the command has grown over the limit it is refused: a well-behaved client
             # would be left waiting for a '+' that cannot come, so what follows is sent {n+}
             sync = r.random() < 0.5 and not reverse and not big_cmd and total <= max_input
-            cur += b" {%d%s}" % (len(data), b"" if sync else b"+")
+            # a literal header may have any number of digits: leading zeros (more digits than int() converts, too)
+            pad = r.choice((0, 0, 0, 0, 0, 3, 70, 130, 4400)) if not reverse else 0
+            hdr_ = b" {%s%d%s}" % (b"0" * pad, len(data), b"" if sync else b"+")
+            if long_tail and li == 0:
+                # ... at the end of a line that is itself over the limit: the literal that follows is still a literal
+                data = b"q99 NOOP\r\n"
+                sync = False
+                hdr_ = b" {%s%d+}" % (b"0" * r.choice((0, 40, 70, 100, 500)), len(data))
+            cur += hdr_
             lits.append((data, sync))
             if len(data) > max_input:
                 # the front-end refuses the literal (no '+' for a synchronising one)
@@ -101,7 +117,7 @@ def build_stream(r, max_input, reverse=False):
             sends.append(("send", bytes(cur) + b"\r\n"))
             if sync:
                 sends.append(("wait+",))
-            total += len(b" {%d%s}" % (len(data), b"" if sync else b"+")) + 2 + len(data)
+            total += len(hdr_) + 2 + len(data)
             cur = bytearray()
             sends.append(("send", data))
             if r.random() < 0.5:
@@ -155,6 +171,11 @@ def gen_response(r, i, tag, reverse, bounds=None):
                 data = (b"line of text\r\n" * (n // 14 + 1))
             data = data[:n]
             out += b"* %d FETCH (BODY[] {%d}\r\n" % (r.randint(1, 9), n) + data + b")\r\n"
+        elif y < 0.93:
+            # a literal header at the end of a line that is longer than any stream buffer
+            n = r.choice((10, 1000, 300000, 1000000))
+            data = (b"line of text\r\n" * (n // 14 + 1))[:n]
+            out += b"* %d FETCH (X-LONG \"" % r.randint(1, 9) + b"h" * r.choice((70000, 140000, 200000)) + b"\" BODY[] {%d}\r\n" % n + data + b")\r\n"
         else:
             out += b"* OK [ALERT] " + bytes(r.choice(b"xyz ") for _ in range(r.randint(0, 900))) + b"\r\n"
     if bounds is not None:
@@ -294,7 +315,9 @@ def execute(program, opts):
                     await asyncio.sleep(rr.choice((0.0, 0.0, 0.001, 0.02)))
             else:
                 want = conts_seen + 1
-                ok = await c.wait_for(lambda: bytes(c.buf).count(FE_LINES[0]) >= want, 900)
+                # (behind a small socket buffer and a slow link the relay of one large literal takes its time, and the
+                # '+' rightly waits for its end)
+                ok = await c.wait_for(lambda: bytes(c.buf).count(FE_LINES[0]) >= want, 60000 if program.get("knobs", {}).get("sock_buf") else 900)
                 if not ok:
                     C("c19_continuation")
                     V(PROP, "continuation_missing", after=conts_seen, expected_total=n_cont, shape=shape)
@@ -303,7 +326,7 @@ def execute(program, opts):
                 conts_seen = want
         # wait for the sentinel's reply (or the connection's end)
         if not stalled:
-            await c.wait_for(lambda: b"zz9 OK" in bytes(c.buf[-4096:]), 6000)
+            await c.wait_for(lambda: b"zz9 OK" in bytes(c.buf[-4096:]), 120000 if program.get("knobs", {}).get("sock_buf") else 6000)
         await asyncio.sleep(1.0)
         ctx.nontrivial = any(s != "cmd0" for s in shape)
         ctx.sig(tuple(shape), program["seg"])
@@ -395,6 +418,16 @@ def execute(program, opts):
 
 
 def generate(seed, tier, index, kf):
+    prog = _generate(seed, tier, index, kf)
+    if prog.pop("slow_client", False):
+        r2 = random.Random(seed ^ 0x77)
+        prog["knobs"]["sock_buf"] = r2.choice((256, 1024))
+        prog["latency"]["net"] = "slow"
+        prog["step_cap"] = 4_000_000
+    return prog
+
+
+def _generate(seed, tier, index, kf):
     r = random.Random(seed)
     reverse = r.random() < 0.3
     mixed = (not reverse) and r.random() < 0.2
@@ -405,6 +438,8 @@ def generate(seed, tier, index, kf):
         "pace": True if mixed else r.random() < 0.5,
         "latency": {"exec": "zero", "db": "zero", "net": r.choice(("zero", "small", "bimodal", "wide"))}, "ops": [], "props": [PROP],
         "step_cap": 1_500_000,
+        # a client behind a small socket buffer and a slow link: relaying one large literal takes longer than any patience
+        **({"slow_client": True} if mixed and r.random() < 0.3 else {}),
     }
 
 
